@@ -6,7 +6,8 @@ from hypothesis import strategies as st
 TEXT_ALPHA = list("abcxyz01 .,;:!?()[]-_=+*") + ["\n", "\n", " ", "\t", "é"]
 INDENTS = ["", "", " ", "  ", "\t", "    ", " \t"]
 LEN_ITERS = [("cl", "str"), ("ce", "str"), ("'abc'", "str"), ("range(cn)", "int"), ("(1, 2)", "int"), ("cd", "str"),
-             ("[cs, cs]", "str"), ("range(0)", "int")]
+             ("[cs, cs]", "str"), ("range(0)", "int"), ("cl[0:2]", "str"), ("cl[:]", "str"), ("sorted(cl, key=lambda z: z)", "str"),
+             ("{1: 'a', 2: 'b'}", "int"), ("cl[1:]", "str")]
 NOLEN_ITERS = [("gen(2)", "str"), ("iter(cl)", "str"), ("gen(0)", "str"), ("(z for z in cl)", "str")]
 ALL_FEATURES = {"control", "py", "loop", "def", "ccall", "capture", "block", "flags", "texttag", "try", "with",
                 "return", "raise", "nested_def", "decorator"}
@@ -151,6 +152,8 @@ class G:
         for p in info.get("kwonly", []):
             if self.chance(50):
                 kw.append("%s=%s" % (p, self.simple_arg(sc)))
+        for p in info.get("kwreq", []):
+            kw.append("%s=%s" % (p, self.simple_arg(sc)))
         if info.get("kwargs") and self.chance(40):
             kw.append("zz=%s" % self.simple_arg(sc))
         return ", ".join(pos + kw)
@@ -391,20 +394,21 @@ class G:
         opt = [self.uid("o") for _ in range(self.int(0, 2))]
         star = self.chance(20)
         kwonly = [self.uid("k")] if star and self.chance(50) else []
+        kwreq = [self.uid("m")] if kwonly and self.chance(50) else []  # keyword-only WITHOUT default, written after one with a default
         kwargs = self.chance(20)
         parts = list(req) + ["%s=%s" % (o, self.pick(["'dflt'", "7", "None", "'x' * 2"])) for o in opt]
         if star:
             parts.append("*args")
-        parts += ["%s='kd'" % k for k in kwonly]
+        parts += ["%s='kd'" % k for k in kwonly] + list(kwreq)
         if kwargs:
             parts.append("**kw")
-        info = {"req": req, "opt": opt, "star": star, "kwonly": kwonly, "kwargs": kwargs, "top": top}
+        info = {"req": req, "opt": opt, "star": star, "kwonly": kwonly, "kwreq": kwreq, "kwargs": kwargs, "top": top}
         dsc = Scope("def", sc if not top else None)
         dsc.defs = dict(sc.defs) if not top else dict(self.topdefs)
         if not top:
             dsc.vars = list(sc.vars)
             dsc.foreign = {v for v, _ in sc.vars}
-        dsc.vars += [(p, "str") for p in req + opt + kwonly]
+        dsc.vars += [(p, "str") for p in req + opt + kwonly + kwreq]
         if star:
             dsc.vars.append(("args", "any"))
         if kwargs:
@@ -471,7 +475,7 @@ class G:
         body = self.body(bsc, depth + 1, minlen=1, allow_empty=False)
         spelling = "call"
         if info.get("top") and self.chance(50) and not info["star"]:
-            spelling = "ns"
+            spelling = "ns"  # (defs with *args - hence keyword-only parameters - are called with the <%call> spelling)
         node = {"t": "ccall", "spelling": spelling, "ns": self.pick(["self", "local"]), "target": name,
                 "body_args": ", ".join(wc["body_args"]) or None, "body": body, "defs": defs}
         if spelling == "call":
